@@ -130,15 +130,15 @@ func (e *Enc) appendBuiltin(site ssa.Instruction, cc *ssa.CallCommon) Value {
 	// nothing could have observed it before).
 	for _, f := range fams {
 		hm := e.cur.get(f.name, f.sort)
-		e.assume(implies(grow, mk(SBool, "(forall ((qi! Int)) (! (=> (and (<= 0 qi!) (< qi! %s)) (= (select %s (eref %s qi!)) (select %s (eref %s (+ %s qi!))))) :pattern ((select %s (eref %s qi!)))))",
-			s.Len.S, hm.S, nb.S, hm.S, s.Base.S, s.Off.S, hm.S, nb.S)), "append copies old elements into the fresh array")
+		e.assume(implies(grow, mk(SBool, "(forall ((qi! Int)) (! (=> (and (<= 0 qi!) (< qi! %s)) (= (select %s (eref %s qi!)) (select %s %s))) :pattern ((select %s (eref %s qi!))) :pattern ((select %s %s))))",
+			s.Len.S, hm.S, nb.S, hm.S, sliceElemRef(s.Base, s.Off, Term{"qi!", SInt}).S, hm.S, nb.S, hm.S, sliceElemRef(s.Base, s.Off, Term{"qi!", SInt}).S)), "append copies old elements into the fresh array")
 	}
 	if isConst && n.IsInt64() && n.Int64() <= 8 && shapeKindOf(st.Elem()) != kArrayOfComposite {
 		// copy the n appended elements one by one (strong updates)
 		for i := int64(0); i < n.Int64(); i++ {
-			src := elemLoc(tBase, add(tOff, intLit(i)), st.Elem())
+			src := locOfRef(sliceElemRef(tBase, tOff, intLit(i)), st.Elem())
 			v := e.load(e.cur, src)
-			dst := elemLoc(res.Base, add(res.Off, add(s.Len, intLit(i))), st.Elem())
+			dst := locOfRef(sliceElemRef(res.Base, res.Off, add(s.Len, intLit(i))), st.Elem())
 			e.store(e.cur, dst, v)
 		}
 		return res
